@@ -662,7 +662,7 @@ mut("09-waiter-channel-from-a-pool", "C09", "fresh-channel:sendPacket/(*sync.Poo
 mut("neg-03-seqno-through-a-variable", "C03", None, ("internal/mtproto/messages/messages.go", "	if requireToAck { // не спрашивай, как это работает\n		d.PutInt(client.GetSeqNo() | 1) // почему тут добавляется бит не ебу\n	} else {\n		d.PutInt(client.GetSeqNo())\n	}\n", "	seqNo := client.GetSeqNo()\n	if requireToAck {\n		seqNo |= 1\n	}\n	d.PutInt(seqNo)\n"))
 mut("neg-07-nonce-checks-in-a-new-helper", "C07", None, (H, "	if nonceFirst.Cmp(dhParams.Nonce.Int) != 0 {\n		return errors.New(\"handshake: Wrong nonce\")\n	}\n	if nonceServer.Cmp(dhParams.ServerNonce.Int) != 0 {\n		return errors.New(\"handshake: Wrong server_nonce\")\n	}\n", "	if err := sameNonces(nonceFirst, nonceServer, dhParams.Nonce, dhParams.ServerNonce); err != nil {\n		return err\n	}\n"), (H, "func (m *MTProto) makeAuthKey() error { // nolint", "func sameNonces(a, b, gotA, gotB *tl.Int128) error {\n	if a.Cmp(gotA.Int) != 0 {\n		return errors.New(\"handshake: Wrong nonce\")\n	}\n	if b.Cmp(gotB.Int) != 0 {\n		return errors.New(\"handshake: Wrong server_nonce\")\n	}\n	return nil\n}\n\nfunc (m *MTProto) makeAuthKey() error { // nolint"))
 mut("neg-19-draw-error-in-else", "C19", None, ("telegram/internal/srp/2fa.go", "	if _, err := rand.Read(random); err != nil {\n		return nil, errors.Wrap(err, \"reading crypto/rand\")\n	}\n\n	return getInputCheckPassword(password, srpB, mp, random)\n", "	_, err := rand.Read(random)\n	if err == nil {\n		return getInputCheckPassword(password, srpB, mp, random)\n	}\n	return nil, errors.Wrap(err, \"reading crypto/rand\")\n"))
-mut("neg-04-msgkey-by-the-package-function", "C04", None, ("internal/mtproto/messages/messages.go", "dry.Sha1Byte(trimed)[4:20]", "ige.MessageKey(trimed)"))
+mut("neg-04-msgkey-by-the-package-function", "C04", None, ("internal/mtproto/messages/messages.go", "dry.Sha1Byte(trimed)[4:20]", "ige.MessageKey(trimed)"), ("internal/mtproto/messages/messages.go", "\t\"github.com/xelaj/go-dry\"\n", ""))
 mut("neg-08-marker-operands-swapped", "C08", None, ("internal/mode/arbiged.go", "if sizeBuf[0] == magicValueSizeMoreThanSingleByte {", "if magicValueSizeMoreThanSingleByte == sizeBuf[0] {"))
 
 json.dump(M, open('/verif/selftest/mutations.json', 'w'), indent=1, ensure_ascii=False)
